@@ -1,11 +1,11 @@
 /*
- * Supplementary probe for the 'Pre-existing' section of NOTES.md (NOT the seeded bug; behaves the same
- * with and without patch.diff): KSI_AggregationHashChain_calculateShape accepts chains of up to 65 links
+ * F46 (C01): KSI_AggregationHashChain_calculateShape accepts chains of up to 65 links
  * although the shape is accumulated in 64 bits, so for 64/65 links the leading 1 (and, for 65 links, the
  * direction of the last link) is shifted out and INT-10 is not reported.
  *
  *   gcc -w -I/repo/src /verif/replay/F46_chain_shape_64_links.c -L/repo/src/ksi/.libs -lksi -lcurl -lcrypto -o /tmp/F46 && \
  *       LD_LIBRARY_PATH=/repo/src/ksi/.libs /tmp/F46
+ * Exit 1 = a chain of 64 or 65 links with chain index 0 is reported OK by the internal policy (before the fix); exit 0 otherwise.
  */
 #include <stdio.h>
 #include <stdlib.h>
@@ -16,6 +16,7 @@
 #include <ksi/impl/signature_impl.h>
 #include <ksi/impl/hashchain_impl.h>
 #define CHECK(e) do { int r__ = (e); if (r__ != KSI_OK) { fprintf(stderr, "ERR %s -> 0x%x %s line %d\n", #e, r__, KSI_getErrorString(r__), __LINE__); exit(2);} } while(0)
+static int bad;
 static void run(KSI_CTX *ctx, int nlinks, int lastIsLeft, KSI_uint64_t index, unsigned long long tm) {
 	KSI_AggregationHashChain *c = NULL; KSI_HashChainLinkList *links = NULL; KSI_IntegerList *idx = NULL;
 	KSI_Integer *v = NULL; KSI_DataHash *in = NULL, *sib = NULL; KSI_SignatureBuilder *b = NULL; KSI_Signature *sig = NULL;
@@ -48,6 +49,7 @@ static void run(KSI_CTX *ctx, int nlinks, int lastIsLeft, KSI_uint64_t index, un
 		CHECK(KSI_Signature_parseWithPolicy(ctx, raw, raw_len, KSI_VERIFICATION_POLICY_EMPTY, NULL, &sig));
 		KSI_VerificationContext_init(&vc, ctx); vc.signature = sig;
 		CHECK(KSI_SignatureVerifier_verify(KSI_VERIFICATION_POLICY_INTERNAL, &vc, &r));
+		if (nlinks >= 64 && r->finalResult.resultCode == KSI_VER_RES_OK) { bad++; printf(" ; VIOLATION: index does not describe %d links, reported OK", nlinks); }
 		printf(" ; reparsed %zu bytes verdict=%d err=%s rule=%s", raw_len, r->finalResult.resultCode, KSI_VerificationErrorCode_toString(r->finalResult.errorCode), r->finalResult.ruleName);
 	} else {
 		KSI_ERR_statusDump(ctx, stdout);
@@ -63,5 +65,6 @@ int main(void) {
 	run(ctx, 65, 0, 0x0, 1500000000ULL);  /* 65 right links */
 	run(ctx, 65, 1, 0x0, 1500000000ULL);  /* last link flipped, same index */
 	run(ctx, 66, 0, 0x0, 1500000000ULL);
-	return 0;
+	printf(bad ? "RESULT: FAIL - %d chain(s) of 64+ links verified with an index that cannot describe them\n" : "RESULT: OK\n", bad);
+	return bad ? 1 : 0;
 }
